@@ -58,3 +58,6 @@ package topology
 //@   ensures [C17.utf8] hasPrefix(s, result)
 //@   loop 1 invariant [C17.utf8] 0 <= i && i <= len(s) && validLen == i
 //@   loop 1 decreases [C17.utf8] len(s) - i
+
+//@ func GenerateFuzzyHash
+//@   requires t != nil
